@@ -535,6 +535,10 @@ structure TheirRpc where
   multiSigKey : Key
   /-- uint32 -/
   unitsFilled : Nat
+  /-- `ServerAsk/ServerBid.Version` (order version of the counterparty's software).  `ParseRPCServerOrder` copies it
+  into `kit.Version`; neither the bucket check nor `Verify` reads it – in particular the lease duration and the channel
+  type of an old-version order are taken from the message as they are. -/
+  version : Nat := 6
 deriving Repr, DecidableEq
 
 structure MatchedRpc where
